@@ -303,9 +303,9 @@ class MAGMA2Scheme(Scheme):
                         dest=fluid, sources=all_pa, hfact=self.hfact,
                         density_iterations=True, dim=self.dim,
                         htol=self.density_iteration_tolerance))
-                    equations.append(
-                        Group(equations=g1, update_nnps=True, iterate=True,
-                              max_iterations=self.max_density_iterations))
+                equations.append(
+                    Group(equations=g1, update_nnps=True, iterate=True,
+                          max_iterations=self.max_density_iterations))
 
                 g2 = []
                 for fluid in self.fluids:
